@@ -22,14 +22,64 @@ class C17(LoopCheck):
         for n in ([2] if tier == "quick" else [2, 3]):
             out.append({"name": f"importance-N{n}", "kind": "importance", "flow": "fn", "N": n, "d": 2, "D": 1})
             out.append({"name": f"convert-N{n}", "kind": "convert", "flow": "fn", "N": n, "d": 2, "D": 1})
+        # FP sort: the prior may be -inf / NaN per point, so the multi-round
+        # initial draw (rejection, concatenation, trimming) and the
+        # all-points-outside-the-prior case of the kernel targets are reachable
+        out.append({"name": "initial-fp-n2-d1", "kind": "initial_fp", "N": 2, "d": 1, "rounds": 3, "flow": "initial_fp", "check_c17": True, "timeout_ms": 120000})
+        for smp in ("SMCSampler", "MCMCSampler", "BlackJAXSMC"):
+            out.append({"name": f"fp-target-{smp}", "kind": "fp_target", "flow": "fp_target", "sampler": smp, "batch": 2, "d": 1})
         return out
 
     def ctx_for(self, cfg, seed):
         if cfg.get("kind") in ("importance", "convert"):
             return sx.Ctx(self.pid, D=1, seed=seed, timeout_ms=60000)
+        if cfg.get("kind") in ("initial_fp", "fp_target"):
+            return sx.Ctx(self.pid, seed=seed, timeout_ms=120000, sort="F", fp_bits=64)
         return super().ctx_for(cfg, seed)
 
+    def h_fp_target(self, cfg):
+        from harness.c05 import get_sampler_class
+
+        b, d, sname = cfg["batch"], cfg["d"], cfg["sampler"]
+
+        def h(ctx):
+            S = sx.OPS.sort
+            fns = UserFns(d, sort=S)
+            tgt = Target(ctx, d, fns, check_c17=True)
+
+            class Flow:
+                def log_prob(self, x):
+                    return fns.apply(fns.Q, x)
+
+            class Tr:
+                xp = sx
+                dtype = None
+
+                def inverse(self, z):
+                    return z, sx.sym("lj", len(z))
+
+                def fit(self, x):
+                    return x
+
+            smp = get_sampler_class(sname)(log_likelihood=tgt.log_likelihood, log_prior=tgt.log_prior, dims=d, prior_flow=Flow(), xp=sx, preconditioning_transform=Tr())
+            z = sx.sym("z", (b, d))
+            if sname == "MCMCSampler":
+                smp.log_prob(z)
+            else:
+                beta = sx.sym("beta")
+                ctx.add_assume(z3.And(z3.fpGT(sx.term(beta), sx.OPS.const(0.0)), z3.fpLEQ(sx.term(beta), sx.OPS.const(1.0))))
+                smp.log_prob(z, beta)
+            ctx.prove(smp.n_likelihood_evaluations == tgt.n_points, "c17/count", detail={"reported": smp.n_likelihood_evaluations, "asked": tgt.n_points})
+
+        return h
+
     def harness(self, cfg):
+        if cfg.get("kind") == "initial_fp":
+            from harness.c10 import C10
+
+            return C10().h_initial(cfg)
+        if cfg.get("kind") == "fp_target":
+            return self.h_fp_target(cfg)
         if cfg.get("kind") == "importance":
             return self.h_importance(cfg)
         if cfg.get("kind") == "convert":
@@ -82,11 +132,18 @@ class C17(LoopCheck):
         return h
 
     def to_cex(self, fl):
+        if fl["cfg"].get("kind") in ("initial_fp", "fp_target"):
+            env = {k: v for k, v in fl["env"].items() if k != "__purified__"}
+            return {"cfg": fl["cfg"], "label": fl["label"], "detail": fl.get("detail"), "env": env}
         if fl["cfg"].get("kind") in ("importance", "convert"):
             return {"cfg": fl["cfg"], "label": fl["label"], "detail": fl.get("detail"), "env": {}}
         return super().to_cex(fl)
 
     def replay(self, cex):
+        if cex["cfg"].get("kind") == "initial_fp":
+            return replay_initial_c17(cex)
+        if cex["cfg"].get("kind") == "fp_target":
+            return replay_fp_target(cex)
         if cex["cfg"].get("kind") in ("importance", "convert"):
             return replay_fn(cex)
         return super().replay(cex)
@@ -141,6 +198,111 @@ def replay_fn(cex):
         if not np.allclose(np.asarray(out.log_w, float), want, rtol=0, atol=1e-12):
             bad.append("weights do not belong to the returned points")
     return (len(bad) > 0, "; ".join(bad[:3]) if bad else "all clauses hold")
+
+
+def _mk(n, d):
+    import numpy as np
+
+    def Lf(x):
+        return -0.5 * np.sum((np.asarray(x) - 0.3) ** 2, axis=-1)
+
+    def Qf(x):
+        return -0.25 * np.sum(np.asarray(x) ** 2, axis=-1) - 1.0
+
+    return Lf, Qf
+
+
+def replay_initial_c17(cex):
+    """Multi-round initial draws on NumPy for every pattern of out-of-prior
+    points in the first two rounds; the likelihood checks the prior it is handed."""
+    import numpy as np
+
+    from aspire.samplers.mcmc import MCMCSampler
+
+    cfg = cex["cfg"]
+    n, d = cfg["N"], cfg["d"]
+    Lf, Qf = _mk(n, d)
+    rs = np.random.Generator(np.random.PCG64(5))
+    draws = [rs.normal(size=(2 * n, d)) + 10 * k for k in range(1, 9)]
+    bad = []
+    for pattern in range(2 ** (2 * n)):
+        invalid = {(k, i) for k in range(2) for i in range(n) if (pattern >> (k * n + i)) & 1}
+        state = {"k": 0, "asked": 0}
+        lookup = {}
+
+        def Pf(x):
+            x = np.asarray(x)
+            out = -np.sum(np.abs(x), axis=-1)
+            for r, row in enumerate(x):
+                if lookup.get(tuple(row)) in invalid:
+                    out[r] = -np.inf
+            return out
+
+        class Flow:
+            def sample_and_log_prob(self, m):
+                k = state["k"]
+                state["k"] += 1
+                x = draws[k][:m].copy()
+                for i, row in enumerate(x):
+                    lookup[tuple(row)] = (k, i)
+                return x, Qf(x)
+
+        def L(s):
+            state["asked"] += len(s.x)
+            lp = s.log_prior
+            if lp is None or len(np.asarray(lp)) != len(s.x) or not np.array_equal(np.asarray(lp, float), Pf(s.x)):
+                bad.append(f"out-of-prior draws {sorted(invalid)}: the likelihood was handed a log_prior that is not the prior of these points")
+            return Lf(s.x)
+
+        smp = MCMCSampler(log_likelihood=L, log_prior=lambda s: Pf(s.x), dims=d, prior_flow=Flow(), xp=np)
+        with np.errstate(all="ignore"):
+            smp.draw_initial_samples(n)
+        if smp.n_likelihood_evaluations != state["asked"]:
+            bad.append(f"n_likelihood_evaluations={smp.n_likelihood_evaluations}, asked for {state['asked']} points")
+        if bad:
+            break
+    return (len(bad) > 0, "; ".join(bad[:2]) if bad else "all clauses hold")
+
+
+def replay_fp_target(cex):
+    import numpy as np
+
+    from harness.c05 import get_sampler_class
+
+    cfg = cex["cfg"]
+    b, d, sname = cfg["batch"], cfg["d"], cfg["sampler"]
+    Lf, Qf = _mk(b, d)
+    bad = []
+    for pattern in range(2**b):
+        asked = {"n": 0}
+        out_of_prior = [(pattern >> i) & 1 for i in range(b)]
+
+        def Pf(x):
+            return np.array([-np.inf if out_of_prior[i] else -0.5 for i in range(len(x))])
+
+        def L(s):
+            asked["n"] += len(s.x)
+            return Lf(s.x)
+
+        class Flow:
+            def log_prob(self, x):
+                return Qf(x)
+
+        class Tr:
+            xp = np
+            dtype = None
+
+            def inverse(self, z):
+                return z, np.zeros(len(z))
+
+        smp = get_sampler_class(sname)(log_likelihood=L, log_prior=lambda s: Pf(s.x), dims=d, prior_flow=Flow(), xp=np, preconditioning_transform=Tr())
+        z = np.arange(b * d, dtype=float).reshape(b, d)
+        with np.errstate(all="ignore"):
+            smp.log_prob(z) if sname == "MCMCSampler" else smp.log_prob(z, 0.5)
+        if smp.n_likelihood_evaluations != asked["n"]:
+            bad.append(f"out-of-prior pattern {out_of_prior}: n_likelihood_evaluations={smp.n_likelihood_evaluations}, the likelihood was asked for {asked['n']} points")
+            break
+    return (len(bad) > 0, "; ".join(bad) if bad else "count equals the points asked")
 
 
 if __name__ == "__main__":
